@@ -235,14 +235,14 @@ TY_TRUSTED = [
     "child contracts: an operand's type/state/constant are uninterpreted functions of the incoming state (structural induction, DESIGN section 2)",
 ]
 TY_NOT_COVERED = [
-    "this is a PARTIAL check of the property: it decides the typing rules of binary operators, if/else and `!` only",
+    "this is a PARTIAL check of the property: it decides the typing rules of binary operators, if/else, `!` and blocks only",
     "not covered: stdlib function type definitions (C03), collection kinds and type-level path insert/remove (beyond C19's scalar fragment), Query/Variable/Assignment typing over TypeState, Block scoping, closures, progressive type checking and pending-fallibility bookkeeping in compiler.rs, Program::final_type_info",
 ]
 PROPS["C01"] = dict(
     level="proof",
     level_text="PARTIAL: proof (Verus on the extracted real bodies) that the typing rules of binary operators, if/else and `!` are sound w.r.t. the runtime helpers' kind table: every value the runtime can produce for operands of the operand kinds belongs to the reported kind. Does not decide type soundness of whole programs.",
     text="type soundness, operator/control-flow core: Op::type_info, IfStatement::type_info, Not::type_info against the kind table of the runtime helpers",
-    verus=["v_op_types", "v_control_types"],
+    verus=["v_op_types", "v_control_types", "v_block_types"],
     kani=["k_optable_add", "k_optable_sub", "k_optable_mul", "k_optable_lt"],
     kani_quick=[],
     trusted=TY_TRUSTED, not_covered=TY_NOT_COVERED,
@@ -252,7 +252,7 @@ PROPS["C02"] = dict(
     level="proof",
     level_text="PARTIAL: proof (Verus on the extracted real bodies) that binary operators, if/else and `!` are typed infallible only when the runtime helper cannot fail on any operands of the operand kinds (the documented NaN case excepted; `/` only with a constant non-zero integer or normal float divisor). Does not decide infallibility of whole programs.",
     text="infallible-never-fails, operator/control-flow core: fallibility component of Op::type_info, IfStatement::type_info, Not::type_info",
-    verus=["v_op_types", "v_control_types"],
+    verus=["v_op_types", "v_control_types", "v_block_types"],
     kani=["k_optable_add", "k_optable_sub", "k_optable_mul", "k_optable_lt"],
     kani_quick=[],
     trusted=TY_TRUSTED, not_covered=TY_NOT_COVERED + ["the runtime half (errors only arise where a node is typed fallible, abort/return routing) is C06-C09/C17"],
